@@ -28,13 +28,13 @@ package plugin
 //@   ensures#valid err == nil ==> validname(name)                                                          [C09 C17]
 //@   ensures#nil err != nil ==> name == "" && data == nil                                                  [C09 C14 C17]
 //@   ensures#ascii err == nil ==> (forall j in 0..len(s) :: 33 <= at(s, j) && at(s, j) <= 126)              [C09]
-//@   ensures#name err == nil ==> hasprefix(s, "AGE-PLUGIN-") && len(s) >= len(name) + 13 && (forall j in 0..len(name) :: at(name, j) == lowerc(at(s, 11 + j))) && at(s, 11 + len(name)) == 45 && at(s, 12 + len(name)) == 49   [C09 C17]
+//@   ensures#name err == nil ==> hasprefix(s, "AGE-PLUGIN-") && len(s) >= len(name) + 13 && (forall j in 0..len(name) :: at(name, j) == lowerc(at(s, 11 + j))) && at(s, 11 + len(name)) == 45 && at(s, 12 + len(name)) == 49   [C09 C17 C18]
 //@   modifies nothing
 
 //@ func ParseRecipient(s) (name, data, err)
 //@   ensures#valid err == nil ==> validname(name)                                                          [C09 C17]
 //@   ensures#nil err != nil ==> name == "" && data == nil                                                  [C09 C14 C17]
-//@   ensures#hrp err == nil ==> hasprefix(s, cat("age1", name)) && at(s, 4 + len(name)) == 49               [C09 C17]
+//@   ensures#hrp err == nil ==> hasprefix(s, cat("age1", name)) && at(s, 4 + len(name)) == 49               [C09 C17 C18]
 //@   modifies nothing
 
 //@ func NewRecipient(s, ui) (r, err)
@@ -132,7 +132,7 @@ package plugin
 //@   call writeStanza#7 requires id(arg0) == id(conn) && arg1 == "ok" && len(arg2) == 0 && s.Type == "error"                       [C16]
 //@   call writeStanza#8 requires id(arg0) == id(conn) && arg1 == "unsupported" && len(arg2) == 0 && s.Type != "recipient-stanza" && s.Type != "labels" && s.Type != "error" && s.Type != "done" && s.Type != "msg" && s.Type != "confirm" && s.Type != "request-secret" && s.Type != "request-public"   [C16]
 //@   call handle#1 requires arg2 == conn && arg3 == s                                                                             [C16]
-//@   call fmt.Errorf#6 requires arg0 == "%s" && len(arg1) == 1 && s.Type == "error"                                                 [C16]
+//@   call fmt.Errorf#6 requires arg0 == "%s" && len(arg1) == 1 && s.Type == "error"                                                 [C16 C11]
 //@   loop 1 invariant conn != nil && conn.Writer != nil && sr != nil && sr.r != nil && r.ui != nil && r.ui == old(r.ui)
 //@   loop 1 invariant#accepted len(stanzas) == calls("writeStanza", 5) - old(calls("writeStanza", 5))                              [C16]
 //@   loop 1 invariant#labelsonce (isnil(labels) ==> calls("writeStanza", 6) == old(calls("writeStanza", 6))) && (!isnil(labels) ==> calls("writeStanza", 6) == old(calls("writeStanza", 6)) + 1)   [C16]
